@@ -15,8 +15,10 @@ import (
 // maintain the reporting task's lockset.
 
 type t4loc struct {
-	obj   ast.Expr // nil for package-level variables
-	field string
+	obj     ast.Expr  // nil for package-level variables
+	key     string    // source text of the location (deduplication within one statement)
+	declPos token.Pos // where the chain's root variable is declared (0: package level)
+	field   string
 }
 
 func (ft *fileTx) isZnPkg(p *types.Package) bool {
@@ -36,41 +38,59 @@ func (ft *fileTx) locOf(e ast.Expr) (t4loc, bool) {
 		}
 		return t4loc{field: v.Pkg().Name() + "." + v.Name()}, true
 	case *ast.SelectorExpr:
-		sel := ft.pkg.TypesInfo.Selections[x]
-		if sel == nil {
+		selection := ft.pkg.TypesInfo.Selections[x]
+		if selection == nil {
 			// qualified identifier pkg.Var
 			if obj, ok := ft.pkg.TypesInfo.Uses[x.Sel].(*types.Var); ok && !obj.IsField() && ft.isZnPkg(obj.Pkg()) && obj.Parent() == obj.Pkg().Scope() {
 				return t4loc{field: obj.Pkg().Name() + "." + obj.Name()}, true
 			}
 			return t4loc{}, false
 		}
-		if sel.Kind() != types.FieldVal {
+		if selection.Kind() != types.FieldVal {
 			return t4loc{}, false
 		}
-		id, ok := x.X.(*ast.Ident)
-		if !ok {
+		// the owner must be reached through a pure chain of variables, field selections and
+		// dereferences (evaluating it again is free of effects); the identity of the location
+		// is the ADDRESS of the field, evaluated under zsim.Safe because a link may be nil.
+		root := chainRoot(x.X)
+		if root == nil {
 			return t4loc{}, false
 		}
-		// the base must be a plain pointer variable (evaluating it again is free of effects)
-		bt := ft.typeOf(id)
+		var declPos token.Pos
+		switch rv := ft.pkg.TypesInfo.Uses[root].(type) {
+		case *types.Var:
+			if rv.IsField() {
+				return t4loc{}, false
+			}
+			if rv.Pkg() == nil || rv.Parent() != rv.Pkg().Scope() {
+				declPos = rv.Pos()
+			}
+		case *types.PkgName:
+		default:
+			return t4loc{}, false
+		}
+		bt := ft.typeOf(x.X)
 		if bt == nil {
 			return t4loc{}, false
 		}
-		pt, ok := bt.Underlying().(*types.Pointer)
-		if !ok {
+		if pt, ok := bt.Underlying().(*types.Pointer); ok {
+			bt = pt.Elem()
+		}
+		owner := "struct"
+		if named, ok := bt.(*types.Named); ok {
+			if !ft.isZnPkg(named.Obj().Pkg()) {
+				return t4loc{}, false
+			}
+			owner = named.Obj().Name()
+		}
+		if _, ok := bt.Underlying().(*types.Struct); !ok {
 			return t4loc{}, false
 		}
-		named, ok := pt.Elem().(*types.Named)
-		if !ok || !ft.isZnPkg(named.Obj().Pkg()) {
-			return t4loc{}, false
-		}
-		if _, ok := named.Underlying().(*types.Struct); !ok {
-			return t4loc{}, false
-		}
-		if len(sel.Index()) != 1 {
-			return t4loc{}, false // promoted through embedding: keep it simple
-		}
-		return t4loc{obj: ast.NewIdent(id.Name), field: named.Obj().Name() + "." + x.Sel.Name}, true
+		safe := &ast.CallExpr{Fun: sel("zsim", "Safe"), Args: []ast.Expr{&ast.FuncLit{
+			Type: &ast.FuncType{Params: &ast.FieldList{}, Results: &ast.FieldList{List: []*ast.Field{{Type: &ast.InterfaceType{Methods: &ast.FieldList{}}}}}},
+			Body: &ast.BlockStmt{List: []ast.Stmt{&ast.ReturnStmt{Results: []ast.Expr{addrOf(x)}}}},
+		}}}
+		return t4loc{obj: safe, field: owner + "." + x.Sel.Name, key: types.ExprString(x), declPos: declPos}, true
 	}
 	return t4loc{}, false
 }
@@ -172,6 +192,7 @@ func (ft *fileTx) t4Func(fd *ast.FuncDecl, fname string) bool {
 					if ix, ok := l.(*ast.IndexExpr); ok {
 						ft.reads(ix.Index, &rd)
 					}
+					ft.ownerReads(l, &rd)
 				}
 				for _, r := range s.Rhs {
 					ft.reads(r, &rd)
@@ -240,6 +261,9 @@ func (ft *fileTx) t4Func(fd *ast.FuncDecl, fname string) bool {
 			}
 			line := ft.fset.Position(st.Pos()).Line
 			emit := func(l t4loc, write bool) {
+				if l.declPos != 0 && l.declPos >= st.Pos() && l.declPos < st.End() {
+					return // the chain starts at a variable this very statement declares
+				}
 				ft.needSim = true
 				ft.rep.AccessSites++
 				var obj ast.Expr = ast.NewIdent("nil")
@@ -256,15 +280,15 @@ func (ft *fileTx) t4Func(fd *ast.FuncDecl, fname string) bool {
 			}
 			seen := map[string]bool{}
 			for _, l := range wr {
-				k := "w" + l.field + exprName(l.obj)
+				k := "w" + l.field + "@" + l.key
 				if !seen[k] {
 					seen[k] = true
 					emit(l, true)
 				}
 			}
 			for _, l := range rd {
-				k := "r" + l.field + exprName(l.obj)
-				if !seen[k] && !seen["w"+l.field+exprName(l.obj)] {
+				k := "r" + l.field + "@" + l.key
+				if !seen[k] && !seen["w"+l.field+"@"+l.key] {
 					seen[k] = true
 					emit(l, false)
 				}
@@ -314,9 +338,40 @@ func addrOfMutex(ft *fileTx, mu ast.Expr) ast.Expr {
 	return addrOf(mu)
 }
 
-func exprName(e ast.Expr) string {
-	if id, ok := e.(*ast.Ident); ok {
-		return "@" + id.Name
+// ownerReads records the reads of the links a store goes through (`a.b` in `a.b.c = v`).
+func (ft *fileTx) ownerReads(l ast.Expr, rd *[]t4loc) {
+	for {
+		switch x := l.(type) {
+		case *ast.ParenExpr:
+			l = x.X
+			continue
+		case *ast.IndexExpr:
+			l = x.X
+			continue
+		case *ast.SliceExpr:
+			l = x.X
+			continue
+		case *ast.SelectorExpr:
+			ft.reads(x.X, rd)
+		}
+		return
 	}
-	return ""
+}
+
+// chainRoot returns the variable a pure selector chain starts from, or nil.
+func chainRoot(e ast.Expr) *ast.Ident {
+	for {
+		switch x := e.(type) {
+		case *ast.Ident:
+			return x
+		case *ast.ParenExpr:
+			e = x.X
+		case *ast.StarExpr:
+			e = x.X
+		case *ast.SelectorExpr:
+			e = x.X
+		default:
+			return nil
+		}
+	}
 }
